@@ -237,3 +237,62 @@ func MustBuild(v *refval.V) datamodel.Node {
 	}
 	return n
 }
+
+// ScaleCases: the number of cases of Scale.
+const ScaleCases = 8
+
+// Scale: concrete values large in one dimension (n entries), for the one-path "scale" harnesses.
+func Scale(which, n int) *refval.V {
+	var v *refval.V
+	switch which {
+	case 0: // many bytes values
+		v = &refval.V{K: refval.List}
+		for i := 0; i < n; i++ {
+			v.L = append(v.L, refval.MkBytes([]byte{byte(i), byte(i >> 8)}))
+		}
+	case 1: // many links
+		cc, _ := cid.Decode("bafyreigh2akiscaildcqabsyg3dfr6chu3fgpregiymsck7e7aqa4s52zy")
+		v = &refval.V{K: refval.List}
+		for i := 0; i < n; i++ {
+			v.L = append(v.L, refval.MkLink(cc.Bytes()))
+		}
+	case 2: // many small maps and lists
+		v = &refval.V{K: refval.List}
+		for i := 0; i < n; i++ {
+			if i%2 == 0 {
+				v.L = append(v.L, refval.MkMap([]string{"a"}, []*refval.V{refval.MkInt(int64(i))}))
+			} else {
+				v.L = append(v.L, refval.MkList(refval.MkNull()))
+			}
+		}
+	case 3: // a wide map, inserted in descending order
+		v = &refval.V{K: refval.Map}
+		for i := n/4 - 1; i >= 0; i-- { // (the reference sort here is quadratic)
+			v.Keys = append(v.Keys, string([]byte{'k', byte('0' + i/1000%10), byte('0' + i/100%10), byte('0' + i/10%10), byte('0' + i%10)}))
+			v.L = append(v.L, refval.MkBool(i%2 == 0))
+		}
+	case 4: // deep nesting, alternating lists and maps
+		v = refval.MkString("leaf")
+		for i := 0; i < 40; i++ {
+			if i%2 == 0 {
+				v = refval.MkList(v)
+			} else {
+				v = refval.MkMap([]string{"/"}, []*refval.V{v})
+			}
+		}
+	case 5: // keys ordered differently by bytes, UTF-16 units and code points
+		v = refval.MkMap([]string{"k\U00010000", "k\uE000z", "k\uFFFF", "k\u00e9", "kz", "k"}, []*refval.V{refval.MkInt(1), refval.MkInt(2), refval.MkInt(3), refval.MkInt(4), refval.MkInt(5), refval.MkInt(6)})
+	case 6: // strings needing every kind of escape
+		v = refval.MkList(refval.MkString("\x00\x01\x1f\"\\/\u2028\u2029\x7f"), refval.MkString("\U0001F600\u00e9<>&"), refval.MkMap([]string{"\n\t\"", "\u2028"}, []*refval.V{refval.MkNull(), refval.MkNull()}))
+	case 7: // many strings and numbers
+		v = &refval.V{K: refval.List}
+		for i := 0; i < n; i++ {
+			if i%2 == 0 {
+				v.L = append(v.L, refval.MkString(string([]byte{'s', byte('a' + i%26)})))
+			} else {
+				v.L = append(v.L, refval.MkInt(int64(i)*1000003-500))
+			}
+		}
+	}
+	return v
+}
